@@ -92,7 +92,7 @@ spec("C01", "Docstring round trip",
      "Necessary conditions decided on the source: (TABLE-style) per docstring style, every section header / line marker the emitter writes contains a "
      "detection token of that style, none of a style detected earlier, and is a header the style's scanner splits on; ARG/RETURN token tables are subsets of "
      "TOKENS. (NULL-2) the pending-parameter slot [None, {}] of the ReST parser cannot reach the name post-processing, which dereferences the name, without a "
-     "test of its name element (the 'documents only a return value' crash). (COORD) the scanners and the writer never cut a docstring at a position that was measured on a stripped / case-folded / otherwise length-changed copy of it. (DET-3, scoped) no function on this property's code path writes state that outlives the call (module globals/objects, function or class attributes, mutated mutable defaults, memoised mutable results): the conversion is not history-dependent.",
+     "test of its name element (the 'documents only a return value' crash). (COORD) the scanners and the writer never cut a docstring at a position that was measured on a stripped / case-folded / otherwise length-changed copy of it. (DET-3, scoped) no function on this property's code path writes state that outlives the call (module globals/objects, function or class attributes, mutated mutable defaults, memoised mutable results): the conversion is not history-dependent. (LATE-BIND / STALE-CAPTURE / SHARED-DEFAULT / STR-MEMBER, scoped) on this property's code path no closure created per iteration reads its loop variable late, no partial / lambda default captures a name that is rebound before the call, no mutable default is mutated, returned or stored, and no membership test is made against an identifier-like string (a tuple that lost its comma).",
      floors={"TABLE-style": 9, "NULL-2": 1},
      technique="constant folding of the repository's token tables and templates; def-use / CFG reachability of a None literal through callee summaries",
      not_decided="IR equality after emit->parse (values); prose that itself contains a marker of another style; exceptions other than the definite None dereference")
@@ -101,7 +101,7 @@ spec("C02", "Config-class round trip",
      [named(O.rule_order, "rule_order_class", only=("emit.class_",)), TB.rule_table_cvar, scoped(FA.rule_falsy, "falsy_class", "emit.class_", "parse.class_"), named(FW.rule_fwd, "rule_fwd", accepted=FWD_ACCEPTED), det3("class", "emit.class_", "parse.class_"), pit("class", "emit.class_", "parse.class_")],
      "Necessary conditions: (ORDER) the class emitter produces exactly one attribute per parameter, in mapping order, never None, named by the parameter's key, with "
      "no filter/sort between the mapping and the attribute list; (TABLE-cvar) the ':cvar' marker and the reserved 'return_type' attribute written by the class "
-     "emitter are exactly what the class and function parsers substitute / pop back. (FWD) an option the caller was given (word_wrap, emit_default_doc, docstring_format, ...) is forwarded to every callee that has the same option with a default - directly, through a partial or a wrapper; the confirmed exceptions are listed with reasons (props.FWD_ACCEPTED) or lie on the live-object path. (DET-3, scoped) no function on this property's code path writes state that outlives the call (module globals/objects, function or class attributes, mutated mutable defaults, memoised mutable results): the conversion is not history-dependent.",
+     "emitter are exactly what the class and function parsers substitute / pop back. (FWD) an option the caller was given (word_wrap, emit_default_doc, docstring_format, ...) is forwarded to every callee that has the same option with a default - directly, through a partial or a wrapper; the confirmed exceptions are listed with reasons (props.FWD_ACCEPTED) or lie on the live-object path. (DET-3, scoped) no function on this property's code path writes state that outlives the call (module globals/objects, function or class attributes, mutated mutable defaults, memoised mutable results): the conversion is not history-dependent. (LATE-BIND / STALE-CAPTURE / SHARED-DEFAULT / STR-MEMBER, scoped) on this property's code path no closure created per iteration reads its loop variable late, no partial / lambda default captures a name that is rebound before the call, no mutable default is mutated, returned or stored, and no membership test is made against an identifier-like string (a tuple that lost its comma).",
      floors={"ORDER": 1, "TABLE-cvar": 4},
      technique="structural sequence analysis of the emitter (map/filter/comprehension chain), return-path analysis of the element function, constant folding",
      not_decided="preservation of values/types/prose; the documented zero-value normalisation; the parser's merge of docstring- and attribute-derived entries")
@@ -112,7 +112,7 @@ spec("C03", "Function / method round trip",
      "Necessary conditions: (ORDER) one argument per non-**kwargs parameter in order, named by the key, with the name-only **kwargs partition and its complement both "
      "consumed; (ALIGN-emit) defaults/kw_defaults are built one per argument from the same sequence (symbolic length identities over all paths); (ALIGN-parse) "
      "signature defaults are padded to exactly the argument count and keep their positions; (TABLE-kind) self/cls/static and the **kwargs suffix agree between "
-     "emitter and recognisers; (NULL-1/2) no definite None dereference on the return-only / prose-less return paths. (FWD) an option the caller was given (word_wrap, emit_default_doc, docstring_format, ...) is forwarded to every callee that has the same option with a default - directly, through a partial or a wrapper; the confirmed exceptions are listed with reasons (props.FWD_ACCEPTED) or lie on the live-object path. (DET-3, scoped) no function on this property's code path writes state that outlives the call (module globals/objects, function or class attributes, mutated mutable defaults, memoised mutable results): the conversion is not history-dependent.",
+     "emitter and recognisers; (NULL-1/2) no definite None dereference on the return-only / prose-less return paths. (FWD) an option the caller was given (word_wrap, emit_default_doc, docstring_format, ...) is forwarded to every callee that has the same option with a default - directly, through a partial or a wrapper; the confirmed exceptions are listed with reasons (props.FWD_ACCEPTED) or lie on the live-object path. (DET-3, scoped) no function on this property's code path writes state that outlives the call (module globals/objects, function or class attributes, mutated mutable defaults, memoised mutable results): the conversion is not history-dependent. (LATE-BIND / STALE-CAPTURE / SHARED-DEFAULT / STR-MEMBER, scoped) on this property's code path no closure created per iteration reads its loop variable late, no partial / lambda default captures a name that is rebound before the call, no mutable default is mutated, returned or stored, and no membership test is made against an identifier-like string (a tuple that lost its comma). (KWARG-LAST, ORDER-merge) as under C07.",
      floors={"ORDER": 2, "ALIGN-emit": 2, "ALIGN-parse": 1, "TABLE-kind": 3, "NULL-1": 1},
      technique="linear-form length algebra evaluated path-sensitively; structural sequence analysis; constant folding; None-return summaries",
      not_decided="equality of types/prose/defaults, return interpolation text, indent levels")
@@ -123,7 +123,7 @@ spec("C04", "argparse round trip",
       coord("rule_coord_defaults", "defaults_utils.extract_default", "defaults_utils.set_default_doc"), named(FW.rule_fwd, "rule_fwd", accepted=FWD_ACCEPTED), det3("argparse", "emit.argparse_function", "parse.argparse_ast"), pit("argparse", "emit.argparse_function", "parse.argparse_ast")],
      "Necessary conditions: (ORDER) exactly one add_argument call per parameter, in order, carrying '--<key>'; (TABLE-argparse) every keyword by which the emitter "
      "carries IR information is read by the parser, the '--' prefix added is the prefix stripped, the recogniser predicates test both receiver and attribute the "
-     "emitter builds, written action constants are understood. (COORD) no position measured on a transformed copy of the prose (strip / casefold / replace change lengths; also through a search helper given a normalising callable) is used to cut the original prose. (FWD) an option the caller was given (word_wrap, emit_default_doc, docstring_format, ...) is forwarded to every callee that has the same option with a default - directly, through a partial or a wrapper; the confirmed exceptions are listed with reasons (props.FWD_ACCEPTED) or lie on the live-object path. (DET-3, scoped) no function on this property's code path writes state that outlives the call (module globals/objects, function or class attributes, mutated mutable defaults, memoised mutable results): the conversion is not history-dependent.",
+     "emitter builds, written action constants are understood. (COORD) no position measured on a transformed copy of the prose (strip / casefold / replace change lengths; also through a search helper given a normalising callable) is used to cut the original prose. (FWD) an option the caller was given (word_wrap, emit_default_doc, docstring_format, ...) is forwarded to every callee that has the same option with a default - directly, through a partial or a wrapper; the confirmed exceptions are listed with reasons (props.FWD_ACCEPTED) or lie on the live-object path. (DET-3, scoped) no function on this property's code path writes state that outlives the call (module globals/objects, function or class attributes, mutated mutable defaults, memoised mutable results): the conversion is not history-dependent. (LATE-BIND / STALE-CAPTURE / SHARED-DEFAULT / STR-MEMBER, scoped) on this property's code path no closure created per iteration reads its loop variable late, no partial / lambda default captures a name that is rebound before the call, no mutable default is mutated, returned or stored, and no membership test is made against an identifier-like string (a tuple that lost its comma).",
      floors={"ORDER": 1, "TABLE-argparse": 10},
      technique="structural sequence analysis; constant/keyword table extraction from writer and reader",
      not_decided="required/default/Optional interplay, choices quoting, numeric vs string defaults (value-level)")
@@ -133,7 +133,7 @@ spec("C06", "Emitted code is valid Python",
       det3("emit", "emit.class_", "emit.function", "emit.argparse_function", "emit.file"), pit("emit", "emit.class_", "emit.function", "emit.argparse_function", "emit.file"), F.rule_file5],
      "Necessary conditions, for all inputs: (ALIGN-emit) every ast.arguments(...) the package builds satisfies Python's length invariants and aligns defaults with "
      "arguments as symbolic identities; (ORDER) names/order/count of attributes, arguments and options are those of the IR by construction; (CTOR) every ast node "
-     "construction supplies the mandatory _fields of the running interpreter. (DET-3, scoped) no function on this property's code path writes state that outlives the call (module globals/objects, function or class attributes, mutated mutable defaults, memoised mutable results): the conversion is not history-dependent.",
+     "construction supplies the mandatory _fields of the running interpreter. (DET-3, scoped) no function on this property's code path writes state that outlives the call (module globals/objects, function or class attributes, mutated mutable defaults, memoised mutable results): the conversion is not history-dependent. (LATE-BIND / STALE-CAPTURE / SHARED-DEFAULT / STR-MEMBER, scoped) on this property's code path no closure created per iteration reads its loop variable late, no partial / lambda default captures a name that is rebound before the call, no mutable default is mutated, returned or stored, and no membership test is made against an identifier-like string (a tuple that lost its comma). (FILE-5c) existing content is not read through a handle opened for appending.",
      floors={"ALIGN-emit": 2, "ORDER": 4, "CTOR": 1},
      technique="linear-form length algebra; structural sequence analysis; constructor-call conformance against ast.<Node>._fields",
      not_decided="behaviour of the executed artefacts, identifier validity of type strings, values of defaults")
@@ -143,7 +143,7 @@ spec("C07", "Parsing faithful to Python's view",
       A.rule_align_parse, O.rule_sigcover, O.rule_first_match, O.rule_kwarg_last, O.rule_order_merge, det3("parse", "parse.function", "parse.class_"), pit("parse", "parse.function", "parse.class_")],
      "Necessary conditions: (DET-1) on the parse path no iteration order of an unordered collection reaches the parameter mapping (order independent of run-to-run "
      "variation); (ALIGN-parse) signature defaults stay aligned with their arguments; (SIGCOVER) args, kwonlyargs and **kwarg each reach the result on some read that "
-     "is not guarded by docstring-derived data; (FIRST-MATCH) the method merged into a class is the first definition of that name in breadth-first order (the class's own, not a nested class's). (KWARG-LAST) a documented `**kwargs` is out of the parameter mapping while the signature merge appends the undocumented parameters and is inserted (or moved to the end) afterwards, so it stays the last parameter as in the signature. (DET-3, scoped) no function on this property's code path writes state that outlives the call (module globals/objects, function or class attributes, mutated mutable defaults, memoised mutable results): the conversion is not history-dependent.",
+     "is not guarded by docstring-derived data; (FIRST-MATCH) the method merged into a class is the first definition of that name in breadth-first order (the class's own, not a nested class's). (KWARG-LAST) a documented `**kwargs` is out of the parameter mapping while the signature merge appends the undocumented parameters and is inserted (or moved to the end) afterwards, so it stays the last parameter as in the signature. (DET-3, scoped) no function on this property's code path writes state that outlives the call (module globals/objects, function or class attributes, mutated mutable defaults, memoised mutable results): the conversion is not history-dependent. (LATE-BIND / STALE-CAPTURE / SHARED-DEFAULT / STR-MEMBER, scoped) on this property's code path no closure created per iteration reads its loop variable late, no partial / lambda default captures a name that is rebound before the call, no mutable default is mutated, returned or stored, and no membership test is made against an identifier-like string (a tuple that lost its comma). (ORDER-merge) the signature merge inserts the undocumented parameters in signature order (no LIFO popitem / reversed source).",
      floors={"DET-1": 2, "ALIGN-parse": 1, "SIGCOVER": 3},
      technique="unordered-value dataflow with order-sensitive-effect classification; length algebra; guard (control-dependence) analysis of signature reads",
      not_decided="that the order is the source order (documented-first is value-level), precedence of documented information, prose attribution, the inspect path")
@@ -153,7 +153,7 @@ spec("C08", "Fixed point after one pass",
       coord("rule_coord_defaults", "defaults_utils.extract_default", "defaults_utils.set_default_doc"), named(FW.rule_fwd, "rule_fwd", accepted=FWD_ACCEPTED), O.rule_order_merge, det3("all", "emit.docstring", "emit.class_", "emit.function", "emit.argparse_function", "parse.docstring", "parse.class_", "parse.function", "parse.argparse_ast"), pit("all", "emit.docstring", "emit.class_", "emit.function", "emit.argparse_function", "parse.docstring", "parse.class_", "parse.function", "parse.argparse_ast"),
       C.rule_call_dispatch],
      "Necessary condition: (TABLE-announce b) each writer of the default sentence recognises its own sentence as 'already present' - either by calling the reader "
-     "itself or by a substring of the written phrase - otherwise one more sentence is appended on every pass. (COORD) no position measured on a transformed copy of the prose (strip / casefold / replace change lengths; also through a search helper given a normalising callable) is used to cut the original prose. (FWD) an option the caller was given (word_wrap, emit_default_doc, docstring_format, ...) is forwarded to every callee that has the same option with a default - directly, through a partial or a wrapper; the confirmed exceptions are listed with reasons (props.FWD_ACCEPTED) or lie on the live-object path. (DET-3, scoped) no function on this property's code path writes state that outlives the call (module globals/objects, function or class attributes, mutated mutable defaults, memoised mutable results): the conversion is not history-dependent.",
+     "itself or by a substring of the written phrase - otherwise one more sentence is appended on every pass. (COORD) no position measured on a transformed copy of the prose (strip / casefold / replace change lengths; also through a search helper given a normalising callable) is used to cut the original prose. (FWD) an option the caller was given (word_wrap, emit_default_doc, docstring_format, ...) is forwarded to every callee that has the same option with a default - directly, through a partial or a wrapper; the confirmed exceptions are listed with reasons (props.FWD_ACCEPTED) or lie on the live-object path. (DET-3, scoped) no function on this property's code path writes state that outlives the call (module globals/objects, function or class attributes, mutated mutable defaults, memoised mutable results): the conversion is not history-dependent. (LATE-BIND / STALE-CAPTURE / SHARED-DEFAULT / STR-MEMBER, scoped) on this property's code path no closure created per iteration reads its loop variable late, no partial / lambda default captures a name that is rebound before the call, no mutable default is mutated, returned or stored, and no membership test is made against an identifier-like string (a tuple that lost its comma). (ORDER-merge) as under C07.",
      floors={"TABLE-announce": 3},
      technique="constant folding of writer phrase / reader announcement tables; guard analysis of the writer",
      not_decided="byte identity of the 2nd and 3rd emission in general (quote guards, indentation, wrapping are value-level)")
@@ -163,7 +163,7 @@ spec("C09", "sync makes targets agree",
      "Necessary conditions: (CALL) every call through the sync dispatch table binds to its callee's signature for every table row and branch (create / append / replace), "
      "on top of 290+ directly resolved calls; (CLI-2) no accepted combination of the three kinds dereferences an option that was not given (192 abstract states); (VISIT-1) "
      "every visit_<T> override of the replacer replaces under the location predicate or delegates; (FILE-5) an appended definition starts on a new line; (FILE-2c) an "
-     "existing, found definition is left unwritten only when its tree equals the replacement; (FILE-2b incl. ZIP-EQ) an existing file is rewritten only under an AST inequality test whose element-wise comparison also compares lengths; (MOD-F2) each target receives a freshly built replacement node. (DET-3, scoped) no function on this property's code path writes state that outlives the call (module globals/objects, function or class attributes, mutated mutable defaults, memoised mutable results): the conversion is not history-dependent.",
+     "existing, found definition is left unwritten only when its tree equals the replacement; (FILE-2b incl. ZIP-EQ) an existing file is rewritten only under an AST inequality test whose element-wise comparison also compares lengths; (MOD-F2) each target receives a freshly built replacement node. (DET-3, scoped) no function on this property's code path writes state that outlives the call (module globals/objects, function or class attributes, mutated mutable defaults, memoised mutable results): the conversion is not history-dependent. (LATE-BIND / STALE-CAPTURE / SHARED-DEFAULT / STR-MEMBER, scoped) on this property's code path no closure created per iteration reads its loop variable late, no partial / lambda default captures a name that is rebound before the call, no mutable default is mutated, returned or stored, and no membership test is made against an identifier-like string (a tuple that lost its comma). (FILE-2d) the existence test that decides between creating and editing a target looks at the same canonical form of the path that is written; (VISIT-4) locations are built inductively (the three recorded findings also fail C09).",
      floors={"CALL": 8, "CLI-2": 1, "VISIT-1": 2, "FILE-5": 1, "FILE-2c": 1},
      technique="signature binding over resolved and table-dispatched calls; finite abstract interpretation of option presence; CFG path enumeration; visitor-protocol check",
      not_decided="that the parsed targets equal the truth IR (values); method target absent from the file (a bare function is appended)")
@@ -172,7 +172,7 @@ spec("C10", "sync idempotent / truth untouched / truthful report",
      [F.rule_file0, F.rule_file1_truth, F.rule_file1b, F.rule_file2, F.rule_file2b, C.rule_call_dispatch, F.rule_file2d, F.rule_file5, det3("sync", "conformance.ground_truth"), pit("sync", "conformance.ground_truth")],
      "Necessary conditions: (FILE-1) every call from the sync worker that can reach a write sink is guarded by a comparison of the target filename with the truth file; (FILE-1b) both sides of that comparison are canonicalised by the same path functions; (CALL-SIB) the create / append / replace branches emit with the same option flags; "
      "(FILE-2) on every enumerated path of _conform_filename the returned and printed changed-flag is true iff a write lies on the path; (FILE-2b) the in-place rewrite is "
-     "control-dependent on an AST-inequality test. (FILE-5) a definition appended to an existing file starts on a new line after every other transformation of the text (otherwise it is glued to the last line, is not found by the next run, and is appended again). (DET-3, scoped) no function on this property's code path writes state that outlives the call (module globals/objects, function or class attributes, mutated mutable defaults, memoised mutable results): the conversion is not history-dependent.",
+     "control-dependent on an AST-inequality test. (FILE-5) a definition appended to an existing file starts on a new line after every other transformation of the text (otherwise it is glued to the last line, is not found by the next run, and is appended again). (DET-3, scoped) no function on this property's code path writes state that outlives the call (module globals/objects, function or class attributes, mutated mutable defaults, memoised mutable results): the conversion is not history-dependent. (LATE-BIND / STALE-CAPTURE / SHARED-DEFAULT / STR-MEMBER, scoped) on this property's code path no closure created per iteration reads its loop variable late, no partial / lambda default captures a name that is rebound before the call, no mutable default is mutated, returned or stored, and no membership test is made against an identifier-like string (a tuple that lost its comma). (FILE-2d) as under C09.",
      floors={"FILE-1": 1, "FILE-2": 4, "FILE-2b": 1},
      technique="call-graph reachability of write sinks, guard/control-dependence analysis, exhaustive CFG path enumeration",
      not_decided="byte identity of a second run (needs emit.parse to be a fixed point: value-level); growth by repeated append when the lookup cannot find what was appended")
@@ -181,7 +181,7 @@ spec("C11", "sync preserves the rest",
      [named(M.rule_modf, "rule_modf_sync", workers=("conformance._conform_filename",)), F.rule_file5, F.rule_file2d, F.rule_file2b, F.rule_file3, V.rule_visit2, V.rule_visit6, V.rule_visit4, V.rule_visit4b, det3("sync", "conformance.ground_truth"), pit("sync", "conformance.ground_truth")],
      "Necessary conditions: (MOD-F) between reading a target module and writing it back the only field-visible writes on the tree are the replacer's or identity-preserving "
      "re-listings, the reader's docstring re-indent being disabled at the call site; (FILE-5) appended text starts on a new line so the file still parses; (VISIT-2) at most "
-     "one node is replaced; (VISIT-6) locations are compared by exact equality; (VISIT-4) locations are built inductively, so only the addressed node can match. (DET-3, scoped) no function on this property's code path writes state that outlives the call (module globals/objects, function or class attributes, mutated mutable defaults, memoised mutable results): the conversion is not history-dependent.",
+     "one node is replaced; (VISIT-6) locations are compared by exact equality; (VISIT-4) locations are built inductively, so only the addressed node can match. (DET-3, scoped) no function on this property's code path writes state that outlives the call (module globals/objects, function or class attributes, mutated mutable defaults, memoised mutable results): the conversion is not history-dependent. (LATE-BIND / STALE-CAPTURE / SHARED-DEFAULT / STR-MEMBER, scoped) on this property's code path no closure created per iteration reads its loop variable late, no partial / lambda default captures a name that is rebound before the call, no mutable default is mutated, returned or stored, and no membership test is made against an identifier-like string (a tuple that lost its comma). (FILE-2d) as under C09; (FILE-2b) the whole-module rewrite truncates (no update mode) and is guarded by an AST inequality; (FILE-3b) a rendering / formatting error aborts the write.",
      floors={"MOD-F": 3, "FILE-5": 1, "VISIT-2": 1, "VISIT-6": 3, "VISIT-4": 3},
      technique="frame rule over AST field writes on the read->write path; guard analysis; visitor-protocol checks",
      not_decided="that black/ast.unparse keep every other statement's tree (trusted); statements inside a replaced function (function targets are never replaced today: VISIT-1)")
@@ -191,7 +191,7 @@ spec("C12", "Deterministic output",
      "Full structural claim over every function of the package: (DET-1) no iteration order of an unordered collection (set displays/calls, set algebra on dict views, names/"
      "parameters/attributes that only receive such values) has an order-sensitive effect; (DET-1b) key order of parameter dicts is unobservable; (DET-2) no volatile source "
      "(id, hash, clocks, random, pid, unsorted listings, environment other than the documented width) anywhere; (DET-3) no function writes state that outlives the call "
-     "(module globals, module-level mutable objects, function/class attributes, mutated mutable defaults, memoised mutable results).",
+     "(module globals, module-level mutable objects, function/class attributes, mutated mutable defaults, memoised mutable results). (LATE-BIND / STALE-CAPTURE / SHARED-DEFAULT / STR-MEMBER, scoped) on this property's code path no closure created per iteration reads its loop variable late, no partial / lambda default captures a name that is rebound before the call, no mutable default is mutated, returned or stored, and no membership test is made against an identifier-like string (a tuple that lost its comma).",
      floors={"DET-1": 20, "DET-2": 1, "DET-3": 1},
      technique="unordered-value dataflow (interprocedural through parameters and instance attributes), source inventory, persistent-state write inventory",
      not_decided="nothing structural is left out; trusted: determinism of ast, textwrap, black, yaml, json, pickle for the values they are given; objects with address-bearing repr are outside the input domain")
@@ -200,7 +200,7 @@ spec("C13", "Non-interference through shared inputs",
      [M.rule_mod1_2, M.rule_mod3, M.rule_modf2_conform, det3("all", "emit.docstring", "emit.class_", "emit.function", "emit.argparse_function", "parse.docstring", "parse.class_", "parse.function", "parse.argparse_ast"), pit("all", "emit.docstring", "emit.class_", "emit.function", "emit.argparse_function", "parse.docstring", "parse.class_", "parse.function", "parse.argparse_ast")],
      "Decided by an alias/ownership abstraction of the dict IR (levels IR / params-returns / parameter dict / carried body): (MOD-1) no emitter changes the shape (keys, "
      "parameter set, order) of the IR it was given; (MOD-2) carried body nodes are not transformed in place; (MOD-5) no emit-path helper writes into a parameter dict "
-     "of the caller's IR (every such write goes to an owned copy); (MOD-3) parsers write AST fields of their input only after rebinding it to a copy on every path; (MOD-F2) the node sync grafts into a target's tree is built afresh for that target (a constructor call, a deepcopy or a result of a dispatch-table emitter, all of which return constructor calls), never handed back from a cache or container shared between the targets of one run. (DET-3, scoped) no function on this property's code path writes state that outlives the call (module globals/objects, function or class attributes, mutated mutable defaults, memoised mutable results): the conversion is not history-dependent.",
+     "of the caller's IR (every such write goes to an owned copy); (MOD-3) parsers write AST fields of their input only after rebinding it to a copy on every path; (MOD-F2) the node sync grafts into a target's tree is built afresh for that target (a constructor call, a deepcopy or a result of a dispatch-table emitter, all of which return constructor calls), never handed back from a cache or container shared between the targets of one run. (DET-3, scoped) no function on this property's code path writes state that outlives the call (module globals/objects, function or class attributes, mutated mutable defaults, memoised mutable results): the conversion is not history-dependent. (LATE-BIND / STALE-CAPTURE / SHARED-DEFAULT / STR-MEMBER, scoped) on this property's code path no closure created per iteration reads its loop variable late, no partial / lambda default captures a name that is rebound before the call, no mutable default is mutated, returned or stored, and no membership test is made against an identifier-like string (a tuple that lost its comma).",
      floors={"MOD-5": 5, "MOD-3": 3},
      technique="flow-sensitive abstract interpretation over IR levels with interprocedural (function, kinds) summaries; CFG must-pass-through for copies",
      not_decided="value-level effects of reads; helpers reached only through unresolved dynamic calls")
@@ -209,7 +209,7 @@ spec("C14", "sync_properties changes exactly the addressed property",
      [F.rule_file1_input, F.rule_file7, O.rule_pairs_all, named(M.rule_modf, "rule_modf_sync_properties", workers=("sync_properties.sync_properties",)), M.rule_modf2, CLI.rule_cli1, A.rule_align_idx, det3("sync_properties", "sync_properties.sync_properties"), pit("sync_properties", "sync_properties.sync_properties")],
      "Necessary conditions: (FILE-1) no value derived from the input filename reaches the path of a write sink; (FILE-7) the single write of the output file comes after all "
      "pairs and every returning path after the transformer ran tests `.replaced` with a raising failing branch; (MOD-F) only the addressed node is field-mutated on the "
-     "read->write path; (MOD-F2) the node taken from the input tree is copied before it is mutated/grafted; (CLI-1) CLI dests bind to the worker's signature. (ALIGN-idx) an index used on `<fn>.args.defaults` comes from the positional argument list only (the `_idx` numbering restarts for keyword-only arguments), so replacing one argument cannot overwrite the default of another. (DET-3, scoped) no function on this property's code path writes state that outlives the call (module globals/objects, function or class attributes, mutated mutable defaults, memoised mutable results): the conversion is not history-dependent.",
+     "read->write path; (MOD-F2) the node taken from the input tree is copied before it is mutated/grafted; (CLI-1) CLI dests bind to the worker's signature. (ALIGN-idx) an index used on `<fn>.args.defaults` comes from the positional argument list only (the `_idx` numbering restarts for keyword-only arguments), so replacing one argument cannot overwrite the default of another. (DET-3, scoped) no function on this property's code path writes state that outlives the call (module globals/objects, function or class attributes, mutated mutable defaults, memoised mutable results): the conversion is not history-dependent. (LATE-BIND / STALE-CAPTURE / SHARED-DEFAULT / STR-MEMBER, scoped) on this property's code path no closure created per iteration reads its loop variable late, no partial / lambda default captures a name that is rebound before the call, no mutable default is mutated, returned or stored, and no membership test is made against an identifier-like string (a tuple that lost its comma).",
      floors={"FILE-1": 2, "FILE-7": 2, "MOD-F": 3, "MOD-F2": 1, "CLI-1": 2},
      technique="taint over the call graph, CFG path facts, frame rule, ownership of foreign nodes",
      not_decided="that the addressed node is the right one (C15), eval mode (executes the input module)")
@@ -218,7 +218,7 @@ spec("C15", "Dotted locations",
      [named(V.rule_visit3, "rule_visit3", location_inductive=V.location_is_inductive), V.rule_visit4, V.rule_visit4b, V.rule_visit2, V.rule_visit6, A.rule_align_idx, pit("locations", "ast_utils.find_in_ast", "ast_utils.annotate_ancestry")],
      "Necessary conditions: (VISIT-3) typestate over the CFG of find_in_ast: a path segment is consumed only after the previous one was matched and a node is answered only "
      "in state MATCHED; (VISIT-3b) answers decided by `_location == search` alone are only accepted while the annotation is inductive; (VISIT-4) every `_location` is built "
-     "from the parent's location; (VISIT-2) replace at most once; (VISIT-6) locations are compared by exact equality only. (ALIGN-idx) an index used on `<fn>.args.defaults` comes from the positional argument list only (the `_idx` numbering restarts for keyword-only arguments), so replacing one argument cannot overwrite the default of another.",
+     "from the parent's location; (VISIT-2) replace at most once; (VISIT-6) locations are compared by exact equality only. (ALIGN-idx) an index used on `<fn>.args.defaults` comes from the positional argument list only (the `_idx` numbering restarts for keyword-only arguments), so replacing one argument cannot overwrite the default of another. (LATE-BIND / STALE-CAPTURE / SHARED-DEFAULT / STR-MEMBER, scoped) on this property's code path no closure created per iteration reads its loop variable late, no partial / lambda default captures a name that is rebound before the call, no mutable default is mutated, returned or stored, and no membership test is made against an identifier-like string (a tuple that lost its comma).",
      floors={"VISIT-3": 4, "VISIT-4": 4, "VISIT-2": 1, "VISIT-6": 3},
      technique="three-state typestate dataflow on a hand-built statement CFG; data-dependence of location assignments",
      not_decided="full functional correctness of the resolver against an independent one")
@@ -227,7 +227,7 @@ spec("C16", "Bodies carried verbatim",
      [V.rule_visit5, TB.rule_table_argparse, M.rule_mod1_2, O.rule_ret_top, det3("bodies", "emit.class_", "emit.function", "emit.argparse_function", "parse.class_", "parse.function", "parse.argparse_ast"), pit("bodies", "emit.class_", "emit.function", "emit.argparse_function", "parse.class_", "parse.function", "parse.argparse_ast")],
      "Necessary conditions: (VISIT-5) the parameter->self.<parameter> renamer rewrites only names in its set, handles every scope-introducing node kind, and its set is exactly "
      "the IR's parameter names as given (computed before the return entry is folded in); (TABLE-argparse) the argparse recognisers pin down receiver and attribute, so only "
-     "the emitter's own statements are treated as interface and every other statement stays in the carried body. (RET-TOP) the return default is read from a top-level statement of the body only, which is what the function emitter's replacement of a trailing `return` assumes; a default taken from a nested block makes the re-emitted body one statement longer. (DET-3, scoped) no function on this property's code path writes state that outlives the call (module globals/objects, function or class attributes, mutated mutable defaults, memoised mutable results): the conversion is not history-dependent.",
+     "the emitter's own statements are treated as interface and every other statement stays in the carried body. (RET-TOP) the return default is read from a top-level statement of the body only, which is what the function emitter's replacement of a trailing `return` assumes; a default taken from a nested block makes the re-emitted body one statement longer. (DET-3, scoped) no function on this property's code path writes state that outlives the call (module globals/objects, function or class attributes, mutated mutable defaults, memoised mutable results): the conversion is not history-dependent. (LATE-BIND / STALE-CAPTURE / SHARED-DEFAULT / STR-MEMBER, scoped) on this property's code path no closure created per iteration reads its loop variable late, no partial / lambda default captures a name that is rebound before the call, no mutable default is mutated, returned or stored, and no membership test is made against an identifier-like string (a tuple that lost its comma).",
      floors={"VISIT-5": 3, "TABLE-argparse": 10},
      technique="visitor-coverage check against the grammar's scope-introducing node kinds; reaching-definition check of the rename set; recogniser constant extraction",
      not_decided="positional special cases of body splicing (slices of the runtime body list), trailing-return handling")
@@ -239,7 +239,7 @@ spec("C17", "Defaults through prose",
      "Necessary conditions: (COORD) in the reader and the writer of default sentences no position measured on a transformed copy of the prose (strip / casefold / "
      "replace change lengths; also through a search helper given a normalising callable) is used to cut the original prose, which is how 'removing the sentence leaves the "
      "surrounding prose unchanged' breaks by a few characters; (TABLE-announce a) the sentence the writer produces contains an announcement the reader looks for; (c) the docstring writer skips writing a default "
-     "only when the prose contains something the reader would recognise as an announcement (decided by calling the reader itself, or by substrings that contain an announcement). (DET-3, scoped) no function on this property's code path writes state that outlives the call (module globals/objects, function or class attributes, mutated mutable defaults, memoised mutable results): the conversion is not history-dependent.",
+     "only when the prose contains something the reader would recognise as an announcement (decided by calling the reader itself, or by substrings that contain an announcement). (DET-3, scoped) no function on this property's code path writes state that outlives the call (module globals/objects, function or class attributes, mutated mutable defaults, memoised mutable results): the conversion is not history-dependent. (LATE-BIND / STALE-CAPTURE / SHARED-DEFAULT / STR-MEMBER, scoped) on this property's code path no closure created per iteration reads its loop variable late, no partial / lambda default captures a name that is rebound before the call, no mutable default is mutated, returned or stored, and no membership test is made against an identifier-like string (a tuple that lost its comma).",
      floors={"TABLE-announce": 3, "COORD": 3},
      technique="constant folding of the announcement tables, guard analysis of the writer, forward dataflow of string-coordinate provenance with callee return summaries",
      not_decided="the numeric/boolean coercion ladder, end-of-value scan, the arithmetic of the removal offsets themselves (character-level)")
@@ -247,7 +247,7 @@ spec("C17", "Defaults through prose",
 spec("C18", "Wrapping / line length transparent",
      [T.rule_typeflow, T.rule_wrap_last, coord("rule_coord_defaults", "defaults_utils.extract_default", "defaults_utils.set_default_doc"), det3("emit", "emit.docstring", "emit.class_", "emit.function", "emit.argparse_function"), pit("emit", "emit.docstring", "emit.class_", "emit.function", "emit.argparse_function")],
      "Necessary conditions: (TYPEFLOW) the configured width read from the environment passes int()/float() before every numeric sink (width= of textwrap, comparison with "
-     "len()); (WRAP-LAST) no reader of prose (default-sentence scanner) is applied to an already word-wrapped string. (COORD) no position measured on a transformed copy of the prose (strip / casefold / replace change lengths; also through a search helper given a normalising callable) is used to cut the original prose. (DET-3, scoped) no function on this property's code path writes state that outlives the call (module globals/objects, function or class attributes, mutated mutable defaults, memoised mutable results): the conversion is not history-dependent.",
+     "len()); (WRAP-LAST) no reader of prose (default-sentence scanner) is applied to an already word-wrapped string. (COORD) no position measured on a transformed copy of the prose (strip / casefold / replace change lengths; also through a search helper given a normalising callable) is used to cut the original prose. (DET-3, scoped) no function on this property's code path writes state that outlives the call (module globals/objects, function or class attributes, mutated mutable defaults, memoised mutable results): the conversion is not history-dependent. (LATE-BIND / STALE-CAPTURE / SHARED-DEFAULT / STR-MEMBER, scoped) on this property's code path no closure created per iteration reads its loop variable late, no partial / lambda default captures a name that is rebound before the call, no mutable default is mutated, returned or stored, and no membership test is made against an identifier-like string (a tuple that lost its comma).",
      floors={"TYPEFLOW": 2, "WRAP-LAST": 5},
      technique="type-state taint from environment reads to numeric sinks across modules; intra-procedural taint from wrapping calls to reader calls",
      not_decided="parse(wrapped) == parse(unwrapped) in general")
@@ -256,7 +256,7 @@ spec("C19", "gen writes one definition per entry",
      [C.rule_call_getattr, F.rule_file6, F.rule_file6b, O.rule_allpair, O.rule_gen_layout, O.rule_first_match, CLI.rule_cli1, det3("gen", "gen.gen"), pit("gen", "gen.gen")],
      "Necessary conditions: (CALL) for each --type value the getattr(emit, ...) call binds to the selected emitter's signature; (FILE-6) the existing-output guard dominates "
      "the gen call with a no-return failing branch; (FIRST-MATCH) a class entry is described by its own `__init__` (first match in breadth-first order), not a nested class's; (ALL-PAIR) __all__ is built from the list filled exactly once per mapping entry with the expression that names the "
-     "emitted definition, after the definitions are joined; (CLI-1) gen's CLI dests bind to gen's signature. (DET-3, scoped) no function on this property's code path writes state that outlives the call (module globals/objects, function or class attributes, mutated mutable defaults, memoised mutable results): the conversion is not history-dependent.",
+     "emitted definition, after the definitions are joined; (CLI-1) gen's CLI dests bind to gen's signature. (DET-3, scoped) no function on this property's code path writes state that outlives the call (module globals/objects, function or class attributes, mutated mutable defaults, memoised mutable results): the conversion is not history-dependent. (LATE-BIND / STALE-CAPTURE / SHARED-DEFAULT / STR-MEMBER, scoped) on this property's code path no closure created per iteration reads its loop variable late, no partial / lambda default captures a name that is rebound before the call, no mutable default is mutated, returned or stored, and no membership test is made against an identifier-like string (a tuple that lost its comma).",
      floors={"CALL": 3, "FILE-6": 5, "ALL-PAIR": 2, "CLI-1": 2},
      technique="finite-domain constant folding of dynamic dispatch; CFG path facts; def-use of the __all__ list",
      not_decided="that each definition describes its source object; import hoisting")
@@ -265,7 +265,7 @@ spec("C20", "Rejected or failing invocations never damage files",
      [F.rule_file6, F.rule_file6b, F.rule_file6c, CLI.rule_cli1, C2.rule_cli2, C.rule_call_dispatch, C.rule_call_getattr, F.rule_file3, F.rule_file4, pit("cli", "__main__.main", "emit.file")],
      "Necessary conditions: (FILE-6) every path of main() reaching a worker has established that worker's validations with a no-return failing branch; (CLI-1) dests bind to "
      "worker signatures; (CLI-2, CALL) no accepted argument combination ends in a None dereference or an unbindable call; (FILE-3) emit.file renders and formats before it "
-     "opens the file; (FILE-4) a file that may exist is replaced atomically.",
+     "opens the file; (FILE-4) a file that may exist is replaced atomically. (LATE-BIND / STALE-CAPTURE / SHARED-DEFAULT / STR-MEMBER, scoped) on this property's code path no closure created per iteration reads its loop variable late, no partial / lambda default captures a name that is rebound before the call, no mutable default is mutated, returned or stored, and no membership test is made against an identifier-like string (a tuple that lost its comma).",
      floors={"FILE-6": 5, "CLI-1": 2, "CLI-2": 1, "CALL": 8, "FILE-3": 1, "FILE-4": 1},
      technique="CFG path facts over main(); finite abstract interpretation of option presence; signature binding; syntactic dominance of rendering over open()",
      not_decided="exit status / usage text; faults inside third-party code")
